@@ -12,6 +12,7 @@ import (
 // whether the channel is still open. The error indicates whether the context
 // has been canceled.
 func Pop[T any](ctx context.Context, ch <-chan T) (T, bool, error) {
+	verifYield()
 	var res T
 	select {
 	case d, ok := <-ch:
@@ -24,6 +25,7 @@ func Pop[T any](ctx context.Context, ch <-chan T) (T, bool, error) {
 // Push tries to push a T to the ch. The error indicates whether the context
 // has been canceled.
 func Push[T any](ctx context.Context, ch chan<- T, ts ...T) error {
+	verifYield()
 	for _, t := range ts {
 		select {
 		case <-ctx.Done():
